@@ -305,6 +305,9 @@ class C08(Check):
         if tier == "quick":
             cat = {g.mutations[m][3] for m in g.mutations if kind_of(m[1]) == "snv"}
             sites = [r for r in sites if r in cat or (r + 1) in cat or (r - 1) in cat]
+        # the bases on both sides of every exon border (first / last coding base, first / last non-coding base)
+        border = {r for s_, e_ in g.exons for r in (s_ - 2, s_ - 1, s_, s_ + 1, e_ - 2, e_ - 1, e_, e_ + 1) if 0 <= r < len(g.seq)}
+        sites = sorted(set(sites) | border)
         for r in sites:
             if r not in g.ref_to_chr:
                 continue
@@ -322,6 +325,15 @@ class C08(Check):
                 if got != want:
                     v.append(("effect/inferred", f"{wk} {build} strand {g.strand}: RefSeq {r + 1}{ref}>{alt} -> {got}, independent translation {want}"))
                     break
+            if r in border:
+                # an uncatalogued single-base deletion is functional exactly if the base is coding
+                dop = "del" + g[c]
+                if (c, dop) not in g.mutations:
+                    cnt["effects"] += 1
+                    got = g.get_functional((c, dop))
+                    want = "indel" if any(s_ <= r < e_ for s_, e_ in g.exons) else None
+                    if got != want:
+                        v.append(("effect/inferred-indel", f"{wk} {build} strand {g.strand}: deletion of RefSeq base {r + 1} -> {got}, expected {want}"))
         nontriv = g.strand < 0 or cnt["ins"] + cnt["del"] + cnt["mnv"] + cnt["delins"] > 0
         return Outcome(v, key=(str(wk)[:40], build, g.strand, cnt["variants"]), nontrivial=nontriv, counters=dict(cnt),
                        note={"db": str(wk), "build": build, "strand": g.strand, "counts": dict(cnt)})
